@@ -62,6 +62,9 @@ REQUIRED = {
         'edge_out.right_out': 100,
         'steered.on_telepod': 100,
         'compositions.dense': 10,
+        'compositions.view_equals_grid': 5,
+        'pose.at_view_anchor': 50,
+        'predicate.in_place_sequence': 300,
         'steered.door_front': 100,
     }
 }
@@ -175,8 +178,13 @@ def check_step(ctx, env, decl, state, action, label, payload_fn, tag):
 
 
 def check_obs(ctx, env, decl, state, label, payload_fn):
+    before = enc.es(state)
     ok, obs = call_real(env.functional_observation, state)
     ctx.hit('obs.checked')
+    if enc.es(state) != before:
+        ctx.violation('obs_input_changed', 'obs_input.mutated',
+                      f'{label}: functional_observation modified the state it observed (agent {before[1][:3]}): the state '
+                      f'{"left" if conforms_state(decl.shape, decl.types, state) else "is still in"} the state space', 'step', payload_fn())
     if not ok:
         ctx.violation('obs_total', 'obs_raises.' + exc_site(obs),
                       f'{label}: functional_observation raised {describe_exc(obs)}', 'step', payload_fn())
@@ -231,6 +239,53 @@ def predicate_probes(ctx, env, decl, state, label, payload_fn):
             ctx.violation('predicate_state', 'predicate.state.' + name,
                           f'{label}: StateSpace.contains -> {got!r} but conformance is {want} for probe {name}',
                           'predicate', payload_fn())
+
+    # in-place sequences on one and the same state object: make it non-conforming, ask, restore it, ask again
+    if undeclared:
+        work = enc.state_from_json(enc.state_to_json(state))
+        seq = []
+        for step in range(3):
+            y, x = ctx.rng.randrange(h), ctx.rng.randrange(w)
+            original = work.grid[y, x]
+            T = ctx.rng.choice(undeclared)
+            for name, obj in (('place_undeclared', gen.make_obj(ctx.rng, T, list(decl.ocolors), [Floor])), ('restore', original)):
+                work.grid[y, x] = obj
+                seq.append(name)
+                want = not conforms_state(decl.shape, decl.types, work)
+                ok, got = call_real(env.state_space.contains, work)
+                ctx.hit('predicate.state')
+                ctx.hit('predicate.in_place_sequence')
+                if not ok or bool(got) != want:
+                    ctx.violation('predicate_state', 'predicate.state.in_place_sequence',
+                                  f'{label}: after the in-place updates {seq} of one state object StateSpace.contains -> {got!r} but '
+                                  f'conformance is {want}', 'predicate', payload_fn())
+        held0 = work.agent.grid_object
+        work.agent.grid_object = gen.make_obj(ctx.rng, ctx.rng.choice(undeclared), list(decl.ocolors), [Floor])
+        ok, got = call_real(env.state_space.contains, work)
+        if not ok or got is not False:
+            ctx.violation('predicate_state', 'predicate.state.in_place_sequence', f'{label}: undeclared held item set in place -> {got!r}',
+                          'predicate', payload_fn())
+        work.agent.grid_object = held0
+        ok, got = call_real(env.state_space.contains, work)
+        if not ok or got is not True:
+            ctx.violation('predicate_state', 'predicate.state.in_place_sequence', f'{label}: state restored in place -> {got!r}',
+                          'predicate', payload_fn())
+        ok_o, obs_w = call_real(env.functional_observation, work)
+        if ok_o and decl.otypes != set(gen.GRID_TYPES):
+            oundecl0 = [t for t in gen.GRID_TYPES if t not in decl.otypes]
+            if oundecl0:
+                oy, ox = ctx.rng.randrange(decl.view[0]), ctx.rng.randrange(decl.view[1])
+                orig = obs_w.grid[oy, ox]
+                for name, obj in (('place_undeclared', gen.make_obj(ctx.rng, ctx.rng.choice(oundecl0), list(decl.ocolors), [Floor])),
+                                  ('restore', orig)):
+                    obs_w.grid[oy, ox] = obj
+                    want = not conforms_observation(decl.view, decl.otypes, decl.ocolors, obs_w)
+                    ok, got = call_real(env.observation_space.contains, obs_w)
+                    ctx.hit('predicate.observation')
+                    if not ok or bool(got) != want:
+                        ctx.violation('predicate_observation', 'predicate.observation.in_place_sequence',
+                                      f'{label}: after in-place {name} ObservationSpace.contains -> {got!r} but conformance is {want}',
+                                      'predicate', payload_fn())
 
     ok, obs = call_real(env.functional_observation, state)
     if not ok:
@@ -340,6 +395,9 @@ def sweep_composition(ctx, comp_seed, n_states, debug):
     comp = workloads.Composition(rng, dense=(comp_seed % 3 == 0))
     if comp_seed % 3 == 0:
         ctx.hit('compositions.dense')
+    if comp_seed % 5 == 1:  # the view coincides with the whole grid when the agent stands at the anchor facing forward
+        comp.shape = (comp.area.height, comp.area.width)
+        ctx.hit('compositions.view_equals_grid')
     holder = {}
     env = comp.build(lambda rng=None: holder['s'])
     env.set_seed(comp_seed)
@@ -353,6 +411,10 @@ def sweep_composition(ctx, comp_seed, n_states, debug):
         state, cat = comp.member_state(srng, category=cats[k % len(cats)])
         if state is None:
             continue
+        if comp_seed % 5 == 1 and k % 4 == 0:
+            state.agent.position = Position(comp.shape[0] - 1, comp.shape[1] // 2)
+            state.agent.orientation = Orientation.F
+            ctx.hit('pose.at_view_anchor')
         if k % 2 == 1 or comp_seed % 3 == 0:  # steer every other state (every state of a dense composition) towards interacting components (telepod + door in front, key in hand ...)
             for sc in workloads.steer(comp, srng, state):
                 ctx.hit('steered.' + sc)
@@ -509,6 +571,8 @@ def replay(ctx, kind, payload):
     if kind in ('step', 'predicate', 'rejected') and 'comp_seed' in payload:
         rng = gen.rng_for('C01comp', payload['comp_seed'])
         comp = workloads.Composition(rng, dense=(payload['comp_seed'] % 3 == 0))
+        if payload['comp_seed'] % 5 == 1:
+            comp.shape = (comp.area.height, comp.area.width)
         state = enc.state_from_json(payload['state'])
         env = comp.build(lambda rng=None: state)
         env.set_seed(payload['comp_seed'])
